@@ -42,7 +42,16 @@ CATS = ["a", "a.b", "b", "bc", "c.d.e", "default"]
 def gen_history(rnd, hid):
     ops = []
     for _ in range(rnd.randint(1, 10)):
-        k = rnd.choice(["set", "set", "set", "restore", "restore", "foreign", "rules"])
+        k = rnd.choice(["set", "set", "set", "restore", "restore", "foreign", "rules", "timepath"])
+        if k == "timepath":
+            fmt = rnd.choice(["", "yyyyMMdd", "yyyy-MM-dd", "MM", "yyyy", "dd.MM.yyyy"])
+            blanks = rnd.choice(["", " ", "  "]) if fmt else rnd.choice(["", " "])
+            pat = "%{time" + blanks + fmt + "}"
+            name = rnd.choice(["app_" + pat + ".log", pat + ".log", "log" + pat, "a%{time yyyy}_b" + pat + ".txt", "plain.log",
+                               "x%{time.log", "p" + pat + "}q.log"])
+            m = re.match(r"(.*)%\{time *(.*?)\}(.*)", name, re.S)
+            ops.append({"op": "timepath", "arg": name, "fmt": m.group(2) if m else ""})
+            continue
         if k == "rules":
             rules = []
             for _ in range(rnd.randint(0, 4)):
@@ -88,7 +97,11 @@ def campaign(bdir, rnd, n, work):
             continue
         op = hists[hi]["ops"][oi]
         oi += 1
-        if e["e"] == "Rules":
+        if e["e"] == "TimePath":
+            runs[-1].append({"e": "TimePath", "arg": [ord(c) for c in op["arg"]], "fmt": [ord(c) for c in op["fmt"]],
+                             "rendered": [[ord(c) for c in r] for r in e["rendered"]],
+                             "names": [[ord(c) for c in n] for n in e["names"]]})
+        elif e["e"] == "Rules":
             runs[-1].append({"e": "Rules", "arg": [ord(c) for c in op["arg"]], "split": [[ord(c) for c in s] for s in op["split"]],
                              "got": e["got"], "want": e["want"]})
         else:
